@@ -122,6 +122,9 @@ func parent(c *ctx) {
 	for _, p := range prefixes {
 		r.ScanRaceLogs(p)
 	}
+	if u, h := r.Counter("lin_unknown"), r.Counter("lin_histories"); u*20 > h {
+		r.Inconclusive(fmt.Sprintf("porcupine timed out on %d of %d histories (more than 5%%)", u, h))
+	}
 	r.Note("gomaxprocs_sweep", []string{"2", "6", fmt.Sprint(runtime.GOMAXPROCS(0))})
 
 	for _, t := range []string{"uint64map", "segment", "sync", "cache"} {
@@ -307,8 +310,10 @@ func judgeLin(c *ctx, res *linResult) {
 	case porcupine.Ok:
 		r.Count("lin_ok", 1)
 	case porcupine.Unknown:
+		// a checker timeout is never a violation; the history counts as not
+		// judged (the parent makes the run inconclusive if too many are)
 		r.Count("lin_unknown", 1)
-		r.Inconclusive(fmt.Sprintf("porcupine timed out after %v on %s history %d (%d ops)", linTimeout, p.Table, p.Index, len(res.ops)))
+		fmt.Fprintf(os.Stderr, "porcupine timed out after %v on %s history %d (%d ops, %d goroutines)\n", linTimeout, p.Table, p.Index, len(res.ops), p.Goroutines)
 	case porcupine.Illegal:
 		r.Count("lin_illegal", 1)
 		r.Violation("lin/"+p.Table+"/not-linearizable", fmt.Sprintf("%s history %d (%d goroutines, %d ops): the operations on key %#x cannot be explained by any sequential order of a register with remove/CAS/compare-delete consistent with their call/return times", p.Table, p.Index, p.Goroutines, len(res.ops), lc.FailKey), lc)
@@ -347,7 +352,7 @@ func phaseConc(c *ctx) {
 		}
 	}
 	close(checkCh)
-	cwg.Wait()
+	defer cwg.Wait() // the checker finishes behind the remaining phases
 
 	// (3) over capacity
 	nEv := r.N(24, 240)
@@ -408,7 +413,22 @@ func phaseConc(c *ctx) {
 		}
 	}
 
-	// (7) Clear racing with writers
+	// (7) Clear racing with writers: one forced schedule per table type, then
+	// free-running ones
+	if c.lo == 0 {
+		for _, t := range []string{"segment", "sync"} {
+			f, cs, inconc := runClearForced(c, t)
+			r.Eval(1)
+			r.Count("conc_clear_forced_schedules", 1)
+			if inconc != "" {
+				r.Inconclusive(inconc)
+			}
+			if f != nil {
+				r.Count("conc_clear_miscounts", 1)
+				r.Violation(f.sig, f.what, cs)
+			}
+		}
+	}
 	nCl := r.N(10, 100)
 	for i := 0; i < nCl; i++ {
 		if !c.mine(i, nCl) {
@@ -486,7 +506,12 @@ func replay(c *ctx, raw json.RawMessage) {
 	case "clear":
 		var cc clearCase
 		_ = json.Unmarshal(raw, &cc)
-		for i := 0; i < 20; i++ { // schedule-dependent: a few attempts
+		if cc.Index < 0 {
+			if f, cs, _ := runClearForced(c, cc.Table); f != nil {
+				r.Violation(f.sig, f.what, cs)
+			}
+		}
+		for i := 0; i < 20 && cc.Index >= 0; i++ { // schedule-dependent: a few attempts
 			if f, cs := runConcClear(c, cc.Index); f != nil {
 				r.Violation(f.sig, f.what, cs)
 				break
